@@ -21,16 +21,21 @@ def scope():
     return dict(VARS), funcs, dict(SUFFIXES)
 
 
-def render_tab(ids):
-    return '\t'.join(TOK_TEXT[i] for i in ids)
+# spellings for the empty-scope part: the token alphabet's names spelled as names the library itself defines by default
+EMPTY_TEXT = dict(TOK_TEXT, x='pi', u='i', f='sqrt', g='kronecker')   # same letters-only / not-letters-only split as TOK_TEXT
 
 
-def render_variant(ids, rng):
+def render_tab(ids, empty=False):
+    tt = EMPTY_TEXT if empty else TOK_TEXT
+    return '\t'.join(tt[i] for i in ids)
+
+
+def render_variant(ids, rng, empty=False):
     """same token sequence: no separator where tokens cannot merge, TAB/LF otherwise; alternative number
     literals; spaces sprinkled anywhere (spaces are deleted before lexing, also inside tokens)"""
     parts = []
     for j, i in enumerate(ids):
-        t = rng.choice(NUM_FORMS[i]) if i in NUM_FORMS else TOK_TEXT[i]
+        t = rng.choice(NUM_FORMS[i]) if i in NUM_FORMS else (EMPTY_TEXT if empty else TOK_TEXT)[i]
         if j and (ids[j - 1] in WORDY and i in WORDY):
             parts.append(rng.choice(['\t', '\n', '\t \n']))
         elif j and rng.random() < 0.3:
